@@ -251,6 +251,8 @@ def hyp_job(job):
 
 
 def run(ctx):
+    from vlib import concur
+    concur.register(ctx, "C04")
     jobs = []
     for transport in ("udp", "aa55", "tcp"):
         for keep in (False, True):
@@ -288,6 +290,10 @@ def run(ctx):
 
 
 def replay(ctx, case):
+    if isinstance(case, dict) and case.get("overlap") and "callers" in case:
+        from vlib import concur
+        concur.replay(ctx.acc, case, concur.INVARIANTS["C04"], "C04")
+        return
     if case.get("sequence"):
         _apply_seq(ctx.acc, case)
         return
